@@ -176,12 +176,19 @@ pub fn gen_user_file(r: &mut Rng, o: &FacOpts) -> String {
         s.push_str("#META CTE_FUENTE: generado\n");
     }
     if r.chance(1, 4) {
+        // metadata of the factor set with hostile keys / values (they are written to the XML / JSON documents and to --of)
+        let k = *r.pick(&["Nota", "R&D<2030>", "clave \"x\"", "ruta\\dir", "ñandú", "a]]>b"]);
+        let v = *r.pick(&["valor", "x < y > z && w", "it's 'quoted'", "&amp; &bogus;", "]]> <![CDATA[", "日本語", "vector, de prueba"]);
+        s.push_str(&format!("#META {k}: {v}\n"));
+    }
+    if r.chance(1, 4) {
         s.push_str("vector, fuente, uso, step, ren, nren, co2\n");
     }
     for (i, l) in lines.iter().enumerate() {
         s.push_str(l);
         if i % 5 == 0 && r.chance(1, 2) {
-            s.push_str(" # comentario <&>");
+            // free text: also text that looks like the header line, a metadata line or a data line
+            s.push_str(*r.pick(&[" # comentario <&>", " # Factores del vector, según la red peninsular", " # vector, fuente, uso, step, ren, nren, co2", " # #META CTE_FUENTE: otra", " # ELECTRICIDAD, RED, SUMINISTRO, A, 9, 9, 9", " # \"comillas\" y \\barras\\ ñ"]));
         }
         s.push('\n');
         if r.chance(1, 12) {
